@@ -471,7 +471,7 @@ def verify_function(repo: Repo, registry: Registry, con: Contract, prop: str, sp
         return res
     except Exception as e:      # executor bug: checker crash, never a violation
         res.status = 'error'
-        res.error = f'{type(e).__name__}: {e}\n' + traceback.format_exc(limit=8)
+        res.error = f'{type(e).__name__}: {e}\n' + traceback.format_exc()[-2500:]
         res.seconds = round(time.time() - t0, 3)
         return res
     finally:
